@@ -138,6 +138,13 @@ def cli_sample(bins, pid, tier, seed):
             for api, args in (("cli_analyze", ["analyze", "--target-groups"]), ("cli_target_show", ["target", "show", "-g"])):
                 r = fx.monorail(args)
                 a_recs.append({"ev": "groups", "config": cfg, "roots": allr, "pruned": False, "changed": [], "out": groups_of(r, "target_groups"), "via": api})
+            # the same question with a checkpoint and nothing changed since (the pruned grouping is empty - or, for a
+            # cyclic configuration, the graph error)
+            if fx.monorail(["checkpoint", "update"])["rc"] == 0:
+                r = fx.monorail(["analyze", "--target-groups"])
+                a_recs.append({"ev": "groups", "config": cfg, "roots": allr, "pruned": True, "changed": [], "out": groups_of(r, "target_groups"),
+                               "via": "cli_analyze_checkpointed_nothing_changed"})
+                fx.monorail(["checkpoint", "delete"])
             dot = os.path.join(fx.root, "g.dot")
             if i % 2 == 0:
                 # the output file already holds an older, longer render: nothing of it may survive
